@@ -1,12 +1,15 @@
 (* Extraction of the executable model to OCaml (ExtrOcamlBasic only; N, Z, positive, nat stay datatypes). *)
 Require Extraction.
 Require Import ExtrOcamlBasic.
-From DictIO Require Import Chars Str Value Scalar.
+From DictIO Require Import Chars Str Value Scalar KeyPath SDict.
 Extraction Blacklist String List Nat Bool Str.
 Cd "../ocaml/extracted".
 Separate Extraction
   Chars.of_string Str.Z_to_dec Str.Z_of_dec Str.dec_to_N Str.N_to_dec
   Value.tree_eqb
   Scalar.parse_value Scalar.parse_scalar Scalar.remove_quotes Scalar.format_scalar Scalar.foam_format_scalar
-  Scalar.format_key Scalar.py_float_ok Scalar.py_int_ok Scalar.scalar_to_key.
+  Scalar.format_key Scalar.py_float_ok Scalar.py_int_ok Scalar.scalar_to_key
+  KeyPath.find_global_key KeyPath.set_global_key KeyPath.key_exists KeyPath.reduce_scope KeyPath.order_tree
+  KeyPath.get_path KeyPath.py_str
+  SDict.sd_trace SDict.sd_clean SDict.sd_order SDict.sd_merge SDict.sd_update.
 Cd "../../coq".
